@@ -831,7 +831,7 @@ def run(run: Run):
     run.coverage_extra.update(
         representatives=len(_REPS), representative_bytes=sum(len(p) for _, p, _ in _REPS), content_variants=len(_FACTORS),
         flag_combinations=1 << len(FLAG_LIST), pcodes=len(PCODES),
-        mutated_wellformed=c.get("wellformed", 0) - c.get("A_flag_x_pcode", 0) - c.get("B_content_cases", 0) - c.get("B_state_x_pcode", 0),
+        mutated_wellformed=c.get("wellformed", 0) - c.get("A_flag_x_pcode", 0) - c.get("B_content_cases", 0) - c.get("B_state_x_pcode", 0) - c.get("C_representatives", 0),
     )
     run.rule = (
         "A: all %d section-flag combinations x %d PCode members with baseline contents; B: %d content variants (text/media empty, ascii, "
